@@ -98,6 +98,31 @@ Fixpoint dfs_node (thr : Q) (bases : list (list Q)) (prefix : key) (rp : Q) {str
 
 Definition dfs_spec (probs : list (list Q)) (thr : Q) : list yield := fst (dfs_node thr probs [] 1).
 
+(* The raw (pre-cut-off) tables popped by the generator, with their prefix.  Used only to STATE the
+   hypothesis "no conditional-table entry lies in the cut-off band (0, atol]" (and by examples). *)
+Fixpoint kids_raw (thr : Q) (nraw : key -> Q -> list (key * list Q)) (prefix : key) (rp : Q)
+                  (i : nat) (l : list Q) {struct l} : list (key * list Q) :=
+  match l with
+  | [] => []
+  | p :: l' =>
+      if Qltb (rp * p) thr then []
+      else nraw (prefix ++ [i]) (rp * p) ++ kids_raw thr nraw prefix rp (S i) l'
+  end.
+
+Fixpoint node_raw (thr : Q) (bases : list (list Q)) (prefix : key) (rp : Q) {struct bases} : list (key * list Q) :=
+  match bases with
+  | [] => []
+  | cur :: rest =>
+      let '(_, tab, fnd) := kids thr (dfs_node thr rest) prefix rp 0%nat cur in
+      kids_raw thr (node_raw thr rest) prefix rp 0%nat cur ++ (if fnd then [(prefix, tab)] else [])
+  end.
+
+Definition raw_tables (probs : list (list Q)) (thr : Q) : list (key * list Q) := node_raw thr probs [] 1.
+
+(* x is not in the cut-off band: the zeroing leaves it alone *)
+Definition band_free (x : Q) : Prop := x == 0 \/ nonzero_atol < x.
+Definition band_free_b (x : Q) : bool := Qeq_bool x 0 || Qltb nonzero_atol x.
+
 (* ================================================================================
    (b) dfs_machine : the `while True` loop, one iteration per step.
    Python lists used as stacks (state, running_product, running_conditional_probabilities)
@@ -272,6 +297,15 @@ Fixpoint sorting_perms_b (probs : list (list Q)) (perms : list (list nat)) : boo
   | v :: rv, p :: rp => sorting_perm_b v p && sorting_perms_b rv rp
   | _, _ => false
   end.
+
+(* "no entry in the cut-off": the inputs are clean (every entry is 0 or > atol) and no raw table entry of the
+   DFS (run in sorted coordinates with threshold thr) lies in (0, atol] *)
+Definition no_entry_in_cutoff (probs : list (list Q)) (perms : list (list nat)) (thr : Q) : Prop :=
+  Forall (Forall band_free) probs /\
+  Forall (fun kt => Forall band_free (snd kt)) (raw_tables (sorted_probs probs perms) thr).
+Definition no_entry_in_cutoff_b (probs : list (list Q)) (perms : list (list nat)) (thr : Q) : bool :=
+  forallb (forallb band_free_b) probs &&
+  forallb (fun kt => forallb band_free_b (snd kt)) (raw_tables (sorted_probs probs perms) thr).
 
 (* ================================================================================
    (d) _generate_qpd_weights                                                              *)
